@@ -164,7 +164,7 @@ def r15_4(ctx: Ctx) -> None:
     """the member cursor of the worker advances only after the fallible source access succeeded."""
     f = ctx.prog.func("py7zr", "Worker.archive")
     cfg = cfg_of(f.node)
-    incs = [n for n in walk(f.node) if isinstance(n, (ast.AugAssign, ast.Assign)) and q.chain(f, n.target if isinstance(n, ast.AugAssign) else n.targets[0]) == "self.current_file_index"]
+    incs = [n for n in walk(f.node) if isinstance(n, (ast.AugAssign, ast.Assign)) and norm(n.target if isinstance(n, ast.AugAssign) else n.targets[0]) == "self.current_file_index"]
     fallible = [c for c in q.calls(f) if any(t in ("py7zr:Worker.write", "py7zr:Worker.writestr") for t in shared.targets_of(ctx, f, c))]
     ctx.floor("R15.4", len(incs), 1, "advance of Worker.current_file_index")
     ctx.floor("R15.4", len(fallible), 2, "fallible source accesses in Worker.archive")
